@@ -451,7 +451,7 @@ func runCases(r *vlib.Run, cases []*tcase) []sresult {
 	sort.Strings(sigs)
 	for _, s := range sigs {
 		b := bySig[s]
-		r.Violation(s, map[string]any{"minimal_input": inputOf(b.c), "full_text": clip(b.c.text, 2000), "detail": b.detail})
+		r.Violation(s, map[string]any{"minimal_input": inputOf(b.c), "full_text": clip(b.c.text, 400000), "detail": b.detail})
 	}
 	if len(cases) > 3 {
 		r.Sample(map[string]any{"leg": "typed", "case": cases[len(cases)/2].label})
